@@ -4,7 +4,7 @@
 EXTENDS EncoderConfig
 
 Names == <<"entry", "preset", "extreme", "lclppb", "mf", "mode", "nice", "depth", "dict", "pdict", "check", "chain",
-           "bsize", "threads", "flush", "oslice", "l1kind", "limit", "mtpreset">>
+           "bsize", "threads", "flush", "oslice", "l1kind", "limit", "mtpreset", "update">>
 
 AllEntries == <<"easy", "stream", "stream_mt", "alone", "raw1", "raw2", "block", "microlzma", "easy_buffer",
                 "stream_buffer", "block_buffer", "raw_buffer", "raw1_buffer">>
@@ -28,7 +28,8 @@ QuickVals == <<
     <<"whole", "small">>,                                          \* output slicing
     <<"lzma1", "ext_noeopm", "ext_eopm">>,                         \* LZMA1 kind
     <<"big", "40", "300", "7">>,                                   \* MicroLZMA output limit
-    <<FALSE, TRUE>> >>                                             \* MT: preset instead of filters
+    <<FALSE, TRUE>>,                                               \* MT: preset instead of filters
+    <<"none", "props">> >>                                         \* lzma_filters_update with new lc/lp/pb
 
 ThoroughVals == <<
     AllEntries,
@@ -49,5 +50,6 @@ ThoroughVals == <<
     <<"whole", "small">>,
     <<"lzma1", "ext_noeopm", "ext_eopm">>,
     <<"big", "40", "300", "7", "6", "4096", "65536">>,
-    <<FALSE, TRUE>> >>
+    <<FALSE, TRUE>>,
+    <<"none", "props">> >>
 =============================================================================
